@@ -1,5 +1,5 @@
 (* C03 — proofs about C03/Model.v:
-   A. the three-valued unary-test evaluation of the code decides `sat` on well-typed tests;
+   A. the three-valued unary-test evaluation of the code decides `sat` for every value and every test (no typing hypothesis);
    B. the rules the code collects are exactly the satisfied rules, in rule order;
    C. get_result composes what the Spec composes; D. the priority sort; E. every hit policy;
    F. the headline refinement and its corollaries; G. the pinned commit refuted. *)
@@ -47,60 +47,64 @@ Proof. destruct (Z.leb_spec a b), (Z.ltb_spec a b), (Z.eqb_spec a b); cbn [orb];
 Lemma nleb_split a b : N.leb a b = N.ltb a b || N.eqb a b.
 Proof. destruct (N.leb_spec a b), (N.ltb_spec a b), (N.eqb_spec a b); cbn [orb]; try reflexivity; lia. Qed.
 
-Lemma item_tv_sat x i :
-  item_typed (kind_of x) i = true -> item_tv x i = Some (of_bool (sat_item x i)).
-Proof. intros Ht. destruct i as [a|o a|lo lc hi hc]; cbn [item_typed] in Ht.
-  - destruct x, a; cbn in Ht; try discriminate;
-      cbn [item_tv item_tv_gen in_equal teq sat_item atom_eqb]; try reflexivity;
-      match goal with |- context [of_bool ?b] => destruct b end; reflexivity.
-  - apply andb_true_iff in Ht. destruct Ht as [Hk Ho]. apply kind_eqb_eq in Hk.
-    destruct x, a; cbn [kind_of] in Hk; try discriminate; cbn in Ho; try discriminate; cbn [item_tv item_tv_gen in_cmp].
-    + rewrite cmp_c_z. destruct o; cbn [sat_item lt_atom le_atom atom_eqb]; reflexivity.
-    + rewrite cmp_c_n. destruct o; cbn [sat_item lt_atom le_atom atom_eqb]; reflexivity.
-  - apply andb_true_iff in Ht. destruct Ht as [Ht Ho]. apply andb_true_iff in Ht. destruct Ht as [Hl Hh].
-    apply kind_eqb_eq in Hl. apply kind_eqb_eq in Hh.
-    destruct x, lo; cbn [kind_of] in Hl; try discriminate; destruct hi; cbn [kind_of] in Hh; try discriminate;
-      cbn in Ho; try discriminate; cbn [item_tv item_tv_gen in_range sat_item le_atom lt_atom atom_eqb].
-    + rewrite !zleb_split. destruct lc, hc; reflexivity.
-    + rewrite !nleb_split. destruct lc, hc; reflexivity. Qed.
-
-Lemma in_list_sat x l :
-  forallb (item_typed (kind_of x)) l = true -> in_list x l = of_bool (existsb (sat_item x) l).
-Proof. induction l as [|i l IH]; cbn [forallb existsb]; intros Ht; [reflexivity|].
-  apply andb_true_iff in Ht. destruct Ht as [Hi Hl]. unfold in_list. cbn [in_list_gen]. fold (item_tv x i). rewrite (item_tv_sat x i Hi).
-  destruct (sat_item x i); cbn [of_bool orb]; [reflexivity | apply IH; exact Hl]. Qed.
-
-Theorem in_test_sat x u : value_typed x u = true -> in_test false true in_neg_list x u = of_bool (sat x u).
-Proof. unfold value_typed. intros Ht.
-  destruct u as [|l|l]; cbn [in_test sat utest_typed negb] in *.
-  - destruct x; reflexivity.
-  - apply (in_list_sat x l Ht).
-  - unfold in_neg_list, in_neg_list_gen. fold (in_list x l). rewrite in_list_sat by assumption. destruct (existsb (sat_item x) l); reflexivity. Qed.
-
 Lemma is_tt_of_bool b : is_tt (of_bool b) = b.
 Proof. destruct b; reflexivity. Qed.
 
-(* ================================================================== B. matching rules *)
-Lemma entry_true_sat x ic e : entry_typed x ic e = true -> entry_true false true x ic e = entry_sat x ic e.
-Proof. unfold entry_typed, entry_true, entry_sat, neg. cbv iota. fold in_neg_list. intros H. apply andb_true_iff in H. destruct H as [Hv Hi].
-  rewrite (in_test_sat x e Hv), is_tt_of_bool. destruct (i_values ic) as [vs|]; [|reflexivity].
-  fold (in_list x vs). rewrite (in_list_sat x vs Hi), is_tt_of_bool. reflexivity. Qed.
+(* every item, every value (null and values of another kind included): the code's answer is `true` exactly when the item is satisfied *)
+Lemma in_equal_sat x a : is_tt (in_equal x a) = atom_eqb x a.
+Proof. destruct x, a; unfold in_equal; cbn [teq atom_eqb is_tt]; try reflexivity.
+  - destruct (Z.eqb z z0); reflexivity.
+  - destruct (N.eqb s s0); reflexivity.
+  - destruct (Bool.eqb b b0); reflexivity. Qed.
 
-Lemma rule_matches_sat ics : forall xs es,
-  all3 entry_typed xs ics es = true -> rule_matches false true xs ics es = all3 entry_sat xs ics es.
-Proof. induction ics as [|ic ics IH]; intros [|x xs] [|e es]; cbn [all3 rule_matches]; try discriminate; try reflexivity.
-  intros H. apply andb_true_iff in H. destruct H as [H1 H2]. rewrite (entry_true_sat _ _ _ H1), (IH _ _ H2). reflexivity. Qed.
+Lemma in_cmp_sat o x a : is_tt (in_cmp o x a) = sat_item x (ICmp o a).
+Proof. destruct x, a; cbn [in_cmp is_tt]; try (destruct o; reflexivity).
+  - rewrite is_tt_of_bool, cmp_c_z. destruct o; cbn [sat_item lt_atom le_atom]; try reflexivity; symmetry; apply zleb_split.
+  - rewrite is_tt_of_bool, cmp_c_n. destruct o; cbn [sat_item lt_atom le_atom]; try reflexivity; symmetry; apply nleb_split. Qed.
+
+Lemma in_range_sat x lo lc hi hc : is_tt (in_range x lo lc hi hc) = sat_item x (IRange lo lc hi hc).
+Proof. destruct x, lo; try (destruct lc; reflexivity); destruct hi;
+    cbn [in_range is_tt sat_item le_atom lt_atom]; rewrite ?is_tt_of_bool, ?andb_false_r; try reflexivity;
+    destruct lc, hc; rewrite ?andb_false_r; reflexivity. Qed.
+
+Lemma item_tv_sat x i : exists t, item_tv x i = Some t /\ is_tt t = sat_item x i.
+Proof. destruct i as [a|o a|lo lc hi hc]; cbn [item_tv item_tv_gen].
+  - exists (in_equal x a). split; [destruct a; reflexivity | apply in_equal_sat].
+  - eexists. split; [reflexivity | apply in_cmp_sat].
+  - eexists. split; [reflexivity | apply in_range_sat]. Qed.
+
+Lemma in_list_sat x l : in_list x l = of_bool (existsb (sat_item x) l).
+Proof. induction l as [|i l IH]; cbn [existsb]; [reflexivity|].
+  unfold in_list. cbn [in_list_gen]. fold (item_tv x i). destruct (item_tv_sat x i) as [t [-> Ht]]. rewrite <- Ht.
+  destruct t; cbn [is_tt of_bool orb]; try reflexivity; apply IH. Qed.
+
+(* the unary-test evaluation with the null literal handled decides `sat` for EVERY value and every entry *)
+Theorem in_test_sat x u : in_test false true in_neg_list x u = of_bool (sat x u).
+Proof. destruct u as [|l|l]; cbn [in_test sat].
+  - destruct x; reflexivity.
+  - apply (in_list_sat x l).
+  - unfold in_neg_list, in_neg_list_gen. fold (in_list x l). rewrite in_list_sat. destruct (existsb (sat_item x) l); reflexivity. Qed.
+
+(* ================================================================== B. matching rules *)
+Lemma entry_true_sat x ic e : entry_true false true x ic e = entry_sat x ic e.
+Proof. unfold entry_true, entry_sat, neg. cbv iota. fold in_neg_list.
+  rewrite (in_test_sat x e), is_tt_of_bool. destruct (i_values ic) as [vs|]; [|reflexivity].
+  fold (in_list x vs). rewrite (in_list_sat x vs), is_tt_of_bool. reflexivity. Qed.
+
+Lemma rule_matches_sat ics : forall xs es, length xs = length ics -> length es = length ics ->
+  rule_matches false true xs ics es = all3 entry_sat xs ics es.
+Proof. induction ics as [|ic ics IH]; intros [|x xs] [|e es]; cbn [all3 rule_matches length]; try discriminate; try reflexivity.
+  intros H1 H2. rewrite entry_true_sat, IH by lia. reflexivity. Qed.
 
 Lemma filter_map {A B} (f : B -> bool) (g : A -> B) l : filter f (map g l) = map g (filter (fun x => f (g x)) l).
 Proof. induction l as [|x l IH]; cbn [map filter]; [reflexivity|]. destruct (f (g x)); cbn [map]; rewrite IH; reflexivity. Qed.
 
-Lemma typed_rules t xs : typed_nl t xs = true -> forall r, In r (t_rules t) -> all3 entry_typed xs (t_inputs t) (r_in r) = true.
-Proof. unfold typed_nl. intros H r Hr. apply andb_true_iff in H. destruct H as [_ H].
-  rewrite forallb_forall in H. apply H. exact Hr. Qed.
+Definition rules_fit (t : table) : Prop := forall r, In r (t_rules t) -> length (r_in r) = length (t_inputs t).
 
-Theorem matching_hits t xs : typed_nl t xs = true -> matching false true t xs = map (eval_rule false true t xs) (hits t xs).
-Proof. intros Ht. unfold matching, hits. rewrite filter_map. f_equal. apply filter_ext_in. intros r Hr.
-  cbn [eval_rule matches]. unfold rule_sat. apply rule_matches_sat. apply (typed_rules t xs Ht r Hr). Qed.
+Theorem matching_hits t xs : rules_fit t -> length xs = length (t_inputs t) ->
+  matching false true t xs = map (eval_rule false true t xs) (hits t xs).
+Proof. intros Hr Hl. unfold matching, hits. rewrite filter_map. f_equal. apply filter_ext_in. intros r Hin.
+  cbn [eval_rule matches]. unfold rule_sat. apply rule_matches_sat; [exact Hl | apply Hr; exact Hin]. Qed.
 
 Lemma rule_outs_spec ocs : forall os, rule_outs true ocs os = map (fun p => out_filter (o_values (fst p)) (snd p)) (combine ocs os).
 Proof. induction ocs as [|oc ocs IH]; intros [|o os]; cbn [rule_outs combine map fst snd]; try reflexivity. rewrite IH. reflexivity. Qed.
@@ -222,9 +226,9 @@ Lemma cmp_outs_keys ocs : forall a b,
 Proof. induction ocs as [|oc ocs IH]; intros [|v1 a] [|v2 b]; cbn [map combine cmp_outs cmp_keys fst snd]; try reflexivity.
   rewrite cmp_pos_key, IH. unfold key1. destruct (o_values oc); reflexivity. Qed.
 
-Lemma prioritized_spec t xs : typed_nl t xs = true ->
+Lemma prioritized_spec t xs : rules_fit t -> length xs = length (t_inputs t) ->
   prioritized false true t xs = map (eval_rule false true t xs) (by_priority t (hits t xs)).
-Proof. intros Ht. unfold prioritized, by_priority. rewrite (matching_hits t xs Ht). symmetry. apply ssort_map.
+Proof. intros Hr Ht. unfold prioritized, by_priority. rewrite (matching_hits t xs Hr Ht). symmetry. apply ssort_map.
   intros x y _ _. rewrite !outs_eval. unfold output_values, key. apply cmp_outs_keys. Qed.
 
 (* the comparator on keys: x > y implies y < x *)
@@ -323,8 +327,15 @@ Proof. intros Hwf. destruct (wf_parts t Hwf) as [_ [Hlen _]]. unfold build_ok. a
 Section Refine.
 Variables (t : table) (xs : list atom).
 Hypothesis Hwf : wf t = true.
-Hypothesis Hty : typed_nl t xs = true.
+Hypothesis Hxs : length xs = length (t_inputs t).
 Let E := eval_rule false true t xs.
+
+Lemma wf_fit : rules_fit t.
+Proof. intros r Hr. destruct (wf_parts t Hwf) as [_ [H _]]. apply (H r Hr). Qed.
+Lemma MH : matching false true t xs = map (eval_rule false true t xs) (hits t xs).
+Proof. exact (matching_hits t xs wf_fit Hxs). Qed.
+Lemma PS : prioritized false true t xs = map (eval_rule false true t xs) (by_priority t (hits t xs)).
+Proof. exact (prioritized_spec t xs wf_fit Hxs). Qed.
 
 Lemma hits_rules r : In r (hits t xs) -> In r (t_rules t).
 Proof. intros H. apply hits_in in H. tauto. Qed.
@@ -358,7 +369,7 @@ Lemma aggregate_spec (f g : list atom -> atom) (sel : agg) :
   | [] => match t_outputs t with _ :: _ :: _ => onull | _ => OOne (spec_default t) end
   | h :: hs => spec_agg g t (h :: hs)
   end.
-Proof. intros _ _ Hfg. unfold aggregate, spec_agg. rewrite (matching_hits t xs Hty). fold E.
+Proof. intros _ _ Hfg. unfold aggregate, spec_agg. rewrite MH. fold E.
   destruct (wf_parts t Hwf) as [Hpos _].
   destruct (t_outputs t) as [|oc [|oc2 ocs]] eqn:Eo; cbn [length] in Hpos; [lia| |].
   - rewrite names_le1 by (rewrite Eo; reflexivity).
@@ -373,30 +384,30 @@ Proof. intros _ _ Hfg. unfold aggregate, spec_agg. rewrite (matching_hits t xs H
 Theorem hit_policy_refines : hit_policy false true t xs = dt_spec t xs.
 Proof. unfold hit_policy, dt_spec.
   destruct (t_policy t) as [| | | | | |a] eqn:Hp.
-  - (* UNIQUE *) rewrite (matching_hits t xs Hty). fold E. destruct (hits t xs) as [|h [|h2 hs]] eqn:Eh; cbn [map].
+  - (* UNIQUE *) rewrite MH. fold E. destruct (hits t xs) as [|h [|h2 hs]] eqn:Eh; cbn [map].
     + rewrite (default_spec t Hwf). reflexivity.
     + unfold E. rewrite (get_result_spec t xs h Hwf); [reflexivity|]. apply hits_rules. rewrite Eh. left. reflexivity.
     + reflexivity.
-  - (* ANY *) rewrite (matching_hits t xs Hty). fold E. destruct (hits t xs) as [|h hs] eqn:Eh; cbn [map].
+  - (* ANY *) rewrite MH. fold E. destruct (hits t xs) as [|h hs] eqn:Eh; cbn [map].
     + rewrite (default_spec t Hwf). reflexivity.
     + change (E h :: map E hs) with (map E (h :: hs)). unfold E.
       rewrite (get_result_spec t xs h Hwf) by (apply hits_rules; rewrite Eh; left; reflexivity).
       rewrite (get_results_spec t xs (h :: hs) Hwf) by (intros r Hr; apply hits_rules; rewrite Eh; exact Hr).
       cbn [map forallb]. rewrite rv_eqb_refl. cbn [andb]. rewrite forallb_map'. reflexivity.
-  - (* PRIORITY *) rewrite (prioritized_spec t xs Hty). fold E. destruct (hits t xs) as [|h hs] eqn:Eh.
+  - (* PRIORITY *) rewrite PS. fold E. destruct (hits t xs) as [|h hs] eqn:Eh.
     + unfold by_priority; cbn [ssort fold_right map]. rewrite (default_spec t Hwf). reflexivity.
     + pose proof (ssort_length (fun x y => cmp_keys (key t x) (key t y)) (h :: hs)) as L. fold (by_priority t (h :: hs)) in L.
       pose proof sorted_rules as SR. rewrite Eh in SR.
       destruct (by_priority t (h :: hs)) as [|r0 rest]; cbn [length] in L; [discriminate|]. cbn [map hd].
       unfold E. rewrite (get_result_spec t xs r0 Hwf); [reflexivity|]. apply SR. left. reflexivity.
-  - (* FIRST *) rewrite (matching_hits t xs Hty). fold E. destruct (hits t xs) as [|h hs] eqn:Eh; cbn [map].
+  - (* FIRST *) rewrite MH. fold E. destruct (hits t xs) as [|h hs] eqn:Eh; cbn [map].
     + rewrite (default_spec t Hwf). reflexivity.
     + unfold E. rewrite (get_result_spec t xs h Hwf); [reflexivity|]. apply hits_rules. rewrite Eh. left. reflexivity.
-  - (* RULE ORDER *) rewrite (matching_hits t xs Hty). fold E. destruct (hits t xs) as [|h hs] eqn:Eh; cbn [map].
+  - (* RULE ORDER *) rewrite MH. fold E. destruct (hits t xs) as [|h hs] eqn:Eh; cbn [map].
     + rewrite (default_spec t Hwf). reflexivity.
     + change (E h :: map E hs) with (map E (h :: hs)). unfold E.
       rewrite (get_results_spec t xs (h :: hs) Hwf) by (intros r Hr; apply hits_rules; rewrite Eh; exact Hr). reflexivity.
-  - (* OUTPUT ORDER *) rewrite (prioritized_spec t xs Hty). fold E. destruct (hits t xs) as [|h hs] eqn:Eh.
+  - (* OUTPUT ORDER *) rewrite PS. fold E. destruct (hits t xs) as [|h hs] eqn:Eh.
     + unfold by_priority; cbn [ssort fold_right map]. rewrite (default_spec t Hwf). reflexivity.
     + pose proof (ssort_length (fun x y => cmp_keys (key t x) (key t y)) (h :: hs)) as L. fold (by_priority t (h :: hs)) in L.
       pose proof sorted_rules as SR. rewrite Eh in SR.
@@ -405,11 +416,11 @@ Proof. unfold hit_policy, dt_spec.
       change (E r0 :: map E rest) with (map E (r0 :: rest)). unfold E.
       rewrite (get_results_spec t xs (r0 :: rest) Hwf) by exact SR. reflexivity.
   - destruct a.
-    + (* COLLECT *) rewrite (matching_hits t xs Hty). fold E. destruct (hits t xs) as [|h hs] eqn:Eh; cbn [map].
+    + (* COLLECT *) rewrite MH. fold E. destruct (hits t xs) as [|h hs] eqn:Eh; cbn [map].
       * rewrite (default_spec t Hwf). reflexivity.
       * change (E h :: map E hs) with (map E (h :: hs)). unfold E.
         rewrite (get_results_spec t xs (h :: hs) Hwf) by (intros r Hr; apply hits_rules; rewrite Eh; exact Hr). reflexivity.
-    + (* C# *) rewrite (matching_hits t xs Hty). fold E. destruct (hits t xs) as [|h hs] eqn:Eh; cbn [map].
+    + (* C# *) rewrite MH. fold E. destruct (hits t xs) as [|h hs] eqn:Eh; cbn [map].
       * rewrite (default_spec t Hwf). reflexivity.
       * cbn [length]. rewrite map_length. reflexivity.
     + (* C+ *) rewrite (aggregate_spec bif_sum spec_sum ASum Hp) by (auto using bif_sum_spec). destruct (hits t xs); reflexivity.
@@ -423,7 +434,7 @@ Proof. unfold hit_policy, dt_spec.
 End Refine.
 
 (* the refinement for the algorithm with the null literal handled as a test (known finding null-literal-entry) *)
-Theorem policy_refines_nl t xs : wf t = true -> typed_nl t xs = true -> dt_impl_nl t xs = dt_spec t xs.
+Theorem policy_refines_nl t xs : wf t = true -> length xs = length (t_inputs t) -> dt_impl_nl t xs = dt_spec t xs.
 Proof. intros Hwf Hty. unfold dt_impl_nl, dt_impl_gen. rewrite (build_ok_wf t Hwf). apply hit_policy_refines; assumption. Qed.
 
 (* a table without null literals does not reach the difference *)
@@ -463,15 +474,20 @@ Proof. unfold no_null_lits. intros H. apply andb_true_iff in H. destruct H as [H
 Lemma impl_is_nl t xs : no_null_lits t = true -> dt_impl t xs = dt_impl_nl t xs.
 Proof. intros H. unfold dt_impl, dt_impl_nl, dt_impl_gen, hit_policy, prioritized, aggregate. rewrite (matching_nonnull t xs H). reflexivity. Qed.
 
-Lemma typed_parts t xs : typed t xs = true -> typed_nl t xs = true /\ no_null_lits t = true.
-Proof. unfold typed. intros H. apply andb_true_iff in H. exact H. Qed.
+Lemma scope_parts t xs : in_scope t xs = true -> length xs = length (t_inputs t) /\ no_null_lits t = true.
+Proof. unfold in_scope, arity_ok. intros H. apply andb_true_iff in H. destruct H as [H1 H2]. apply Nat.eqb_eq in H2. split; assumption. Qed.
 
-Theorem policy_refines t xs : wf t = true -> typed t xs = true -> dt_impl t xs = dt_spec t xs.
-Proof. intros Hwf Hty. destruct (typed_parts t xs Hty) as [H1 H2]. rewrite (impl_is_nl t xs H2). apply policy_refines_nl; assumption. Qed.
+(* the former hypothesis of the refinement (literals of the kind of the input value) was stronger *)
+Lemma typed_in_scope t xs : typed t xs = true -> in_scope t xs = true.
+Proof. unfold typed, typed_nl, in_scope, arity_ok. intros H. apply andb_true_iff in H. destruct H as [H1 H2].
+  apply andb_true_iff in H1. destruct H1 as [H1 _]. rewrite H1, H2. reflexivity. Qed.
 
-Theorem matching_exact t xs : typed t xs = true ->
+Theorem policy_refines t xs : wf t = true -> in_scope t xs = true -> dt_impl t xs = dt_spec t xs.
+Proof. intros Hwf Hty. destruct (scope_parts t xs Hty) as [H1 H2]. rewrite (impl_is_nl t xs H2). apply policy_refines_nl; assumption. Qed.
+
+Theorem matching_exact t xs : wf t = true -> in_scope t xs = true ->
   matching false false t xs = map (eval_rule false false t xs) (filter (rule_sat t xs) (t_rules t)).
-Proof. intros Hty. destruct (typed_parts t xs Hty) as [H1 H2]. rewrite (matching_nonnull t xs H2), (matching_hits t xs H1). unfold hits.
+Proof. intros Hwf Hty. destruct (scope_parts t xs Hty) as [H1 H2]. rewrite (matching_nonnull t xs H2), (matching_hits t xs (wf_fit t Hwf) H1). unfold hits.
   apply map_ext_in. intros r Hr. apply filter_In in Hr. destruct Hr as [Hr _].
   unfold no_null_lits in H2. apply andb_true_iff in H2. destruct H2 as [H2 H5]. apply andb_true_iff in H2. destruct H2 as [H3 H4].
   rewrite forallb_forall in H5. unfold eval_rule.
@@ -485,7 +501,7 @@ Proof. induction l as [|x l IH]; cbn [filter]; intros h hs H; [discriminate|]. d
   - destruct (IH h hs H) as [l1 [l2 [-> [H1 [H2 H3]]]]]. exists (x :: l1), l2. cbn [app In]. repeat split; try assumption.
     intros y [<-|Hy]; [exact Fx|apply H1; exact Hy]. Qed.
 
-Theorem first_is_least_index t xs : wf t = true -> typed t xs = true -> t_policy t = PFirst ->
+Theorem first_is_least_index t xs : wf t = true -> in_scope t xs = true -> t_policy t = PFirst ->
   forall h hs, hits t xs = h :: hs ->
   dt_impl t xs = OOne (spec_out t h) /\
   exists before after, t_rules t = before ++ h :: after /\ rule_sat t xs h = true /\ forall r, In r before -> rule_sat t xs r = false.
@@ -493,7 +509,7 @@ Proof. intros Hwf Hty Hp h hs Hh. split.
   - rewrite (policy_refines t xs Hwf Hty). unfold dt_spec. rewrite Hh, Hp. reflexivity.
   - unfold hits in Hh. destruct (filter_first _ _ _ _ Hh) as [l1 [l2 [E [H1 [H2 _]]]]]. exists l1, l2. tauto. Qed.
 
-Theorem collect_in_rule_order t xs : wf t = true -> typed t xs = true ->
+Theorem collect_in_rule_order t xs : wf t = true -> in_scope t xs = true ->
   t_policy t = PRuleOrder \/ t_policy t = PCollect AList -> hits t xs <> [] ->
   dt_impl t xs = OMany (map (spec_out t) (filter (rule_sat t xs) (t_rules t))).
 Proof. intros Hwf Hty Hp Hne. rewrite (policy_refines t xs Hwf Hty). unfold dt_spec. fold (hits t xs).
@@ -519,12 +535,12 @@ Proof. unfold by_priority. split; [apply ssort_perm|]. split.
     assert (p' = q) as ->. { destruct p' as [i|], q as [j|]; cbn [cmp_key1] in E2; try discriminate; [apply Nat.compare_eq in E2; congruence|reflexivity]. }
     rewrite cmp_key1_refl. apply (IH k b); try assumption; lia. Qed.
 
-Theorem output_order_result t xs : wf t = true -> typed t xs = true -> t_policy t = POutputOrder -> hits t xs <> [] ->
+Theorem output_order_result t xs : wf t = true -> in_scope t xs = true -> t_policy t = POutputOrder -> hits t xs <> [] ->
   dt_impl t xs = OMany (map (spec_out t) (by_priority t (hits t xs))).
 Proof. intros Hwf Hty Hp Hne. rewrite (policy_refines t xs Hwf Hty). unfold dt_spec.
   destruct (hits t xs) as [|h hs]; [congruence|]. rewrite Hp. reflexivity. Qed.
 
-Theorem priority_result t xs : wf t = true -> typed t xs = true -> t_policy t = PPriority ->
+Theorem priority_result t xs : wf t = true -> in_scope t xs = true -> t_policy t = PPriority ->
   forall h hs, hits t xs = h :: hs ->
   exists top rest, by_priority t (h :: hs) = top :: rest /\ dt_impl t xs = OOne (spec_out t top).
 Proof. intros Hwf Hty Hp h hs Hh. rewrite (policy_refines t xs Hwf Hty). unfold dt_spec. rewrite Hh, Hp.
@@ -544,7 +560,7 @@ Proof. destruct a as [x|x], b as [y|y]; cbn [rv_eqb]; split; try discriminate; t
   - intros H. apply ctx_eqb_eq in H. congruence.
   - intros [= ->]. apply ctx_eqb_eq. reflexivity. Qed.
 
-Theorem unique_any t xs : wf t = true -> typed t xs = true ->
+Theorem unique_any t xs : wf t = true -> in_scope t xs = true ->
   (t_policy t = PUnique ->
      (forall h, hits t xs = [h] -> dt_impl t xs = OOne (spec_out t h)) /\
      (2 <= length (hits t xs) -> dt_impl t xs = onull)) /\
@@ -561,12 +577,12 @@ Proof. intros Hwf Hty. rewrite (policy_refines t xs Hwf Hty). unfold dt_spec. sp
     + intros [r [Hr Hd]]. replace (forallb (fun r => rv_eqb (spec_out t h) (spec_out t r)) hs) with false; [reflexivity|].
       symmetry. apply not_true_is_false. intros H. rewrite forallb_forall in H. specialize (H r Hr). apply rv_eqb_eq in H. congruence. Qed.
 
-Theorem count_length t xs : wf t = true -> typed t xs = true -> t_policy t = PCollect ACount -> hits t xs <> [] ->
+Theorem count_length t xs : wf t = true -> in_scope t xs = true -> t_policy t = PCollect ACount -> hits t xs <> [] ->
   dt_impl t xs = OOne (RAtom (ANum (Z.of_nat (length (filter (rule_sat t xs) (t_rules t)))))).
 Proof. intros Hwf Hty Hp Hne. rewrite (policy_refines t xs Hwf Hty). unfold dt_spec. fold (hits t xs).
   destruct (hits t xs) as [|h hs]; [congruence|]. rewrite Hp. reflexivity. Qed.
 
-Theorem aggregates t xs : wf t = true -> typed t xs = true -> length (t_outputs t) = 1 -> hits t xs <> [] ->
+Theorem aggregates t xs : wf t = true -> in_scope t xs = true -> length (t_outputs t) = 1 -> hits t xs <> [] ->
   (t_policy t = PCollect ASum -> dt_impl t xs = OOne (RAtom (spec_sum (map (single_out t) (hits t xs))))) /\
   (t_policy t = PCollect AMin -> dt_impl t xs = OOne (RAtom (spec_min (map (single_out t) (hits t xs))))) /\
   (t_policy t = PCollect AMax -> dt_impl t xs = OOne (RAtom (spec_max (map (single_out t) (hits t xs))))).
@@ -574,7 +590,7 @@ Proof. intros Hwf Hty H1 Hne. rewrite (policy_refines t xs Hwf Hty). unfold dt_s
   destruct (t_outputs t) as [|oc [|oc2 ocs]]; cbn [length] in H1; try discriminate.
   destruct (hits t xs) as [|h hs]; [congruence|]. repeat split; intros ->; reflexivity. Qed.
 
-Theorem no_hit_default t xs : wf t = true -> typed t xs = true -> hits t xs = [] ->
+Theorem no_hit_default t xs : wf t = true -> in_scope t xs = true -> hits t xs = [] ->
   (forall a, t_policy t <> PCollect a \/ length (t_outputs t) = 1 \/ a = AList \/ a = ACount) ->
   dt_impl t xs = OOne (spec_default t).
 Proof. intros Hwf Hty Hh Hp. rewrite (policy_refines t xs Hwf Hty). unfold dt_spec. rewrite Hh.
@@ -595,7 +611,7 @@ Proof. unfold dt_spec, spec_agg, onull.
     repeat match goal with |- context [match ?l with [] => _ | _ :: _ => _ end] => destruct l end;
     repeat match goal with |- context [if ?b then _ else _] => destruct b end; split; discriminate. Qed.
 
-Theorem no_crash_if_well_shaped t xs : wf t = true -> typed t xs = true -> dt_impl t xs <> OCrash /\ dt_impl t xs <> OBuildCrash.
+Theorem no_crash_if_well_shaped t xs : wf t = true -> in_scope t xs = true -> dt_impl t xs <> OCrash /\ dt_impl t xs <> OBuildCrash.
 Proof. intros Hwf Hty. rewrite (policy_refines t xs Hwf Hty). apply dt_spec_no_crash. Qed.
 
 (* ---------------- contexts are keyed by the component names ---------------- *)
@@ -638,7 +654,7 @@ Definition t_neg : table :=
      t_rules := [{| r_in := [UNeg [IRange (ANum 1) true (ANum 5) true]]; r_out := [ANum 7] |}] |}.
 
 Theorem orig_negated_interval_refuted :
-  wf t_neg = true /\ typed t_neg [ANum 9%Z] = true /\
+  wf t_neg = true /\ in_scope t_neg [ANum 9%Z] = true /\
   dt_spec t_neg [ANum 9%Z] = OOne (RAtom (ANum 7)) /\ dt_impl_orig t_neg [ANum 9%Z] = onull /\ dt_impl t_neg [ANum 9%Z] = OOne (RAtom (ANum 7)).
 Proof. vm_compute. repeat split. Qed.
 
@@ -649,7 +665,7 @@ Definition t_prio : table :=
      t_rules := [{| r_in := [UAny]; r_out := [ANum 1; ANum 1] |}; {| r_in := [UAny]; r_out := [ANum 1; ANum 2] |}] |}.
 
 Theorem orig_priority_flattened_refuted :
-  wf t_prio = true /\ typed t_prio [ANum 0%Z] = true /\
+  wf t_prio = true /\ in_scope t_prio [ANum 0%Z] = true /\
   dt_spec t_prio [ANum 0%Z] = OMany [RCtx [(0%N, ANum 1); (1%N, ANum 2)]; RCtx [(0%N, ANum 1); (1%N, ANum 1)]] /\
   dt_impl_orig t_prio [ANum 0%Z] = OMany [RCtx [(0%N, ANum 1); (1%N, ANum 1)]; RCtx [(0%N, ANum 1); (1%N, ANum 2)]] /\
   dt_impl t_prio [ANum 0%Z] = dt_spec t_prio [ANum 0%Z].
@@ -662,7 +678,7 @@ Definition t_dflt : table :=
      t_rules := [{| r_in := [UPos [ILit (ANum 1)]]; r_out := [AStr 1; AStr 2] |}] |}.
 
 Theorem orig_default_compound_refuted :
-  wf t_dflt = true /\ typed t_dflt [ANum 0%Z] = true /\ hits t_dflt [ANum 0%Z] = [] /\
+  wf t_dflt = true /\ in_scope t_dflt [ANum 0%Z] = true /\ hits t_dflt [ANum 0%Z] = [] /\
   dt_spec t_dflt [ANum 0%Z] = OOne (RCtx [(0%N, AStr 3); (1%N, AStr 5)]) /\
   dt_impl_orig t_dflt [ANum 0%Z] = onull /\ dt_impl t_dflt [ANum 0%Z] = dt_spec t_dflt [ANum 0%Z].
 Proof. vm_compute. repeat split. Qed.
@@ -679,13 +695,13 @@ Definition t_nulllit : table :=
                  {| r_in := [UPos [ILit (ANum 1); ILit ANull]]; r_out := [ANum 9] |}] |}.
 
 Theorem orig_dash_null_refuted :
-  wf t_dash = true /\ typed t_dash [ANull] = true /\
+  wf t_dash = true /\ in_scope t_dash [ANull] = true /\
   dt_spec t_dash [ANull] = OOne (RAtom (ANum 7)) /\ dt_impl_orig t_dash [ANull] = onull /\ dt_impl t_dash [ANull] = OOne (RAtom (ANum 7)).
 Proof. vm_compute. repeat split. Qed.
 
 (* known finding null-literal-entry: the code does not handle the literal null as a unary test *)
 Theorem null_literal_known :
-  wf t_nulllit = true /\ typed_nl t_nulllit [ANull] = true /\ typed_nl t_nulllit [ANum 1%Z] = true /\ no_null_lits t_nulllit = false /\
+  wf t_nulllit = true /\ arity_ok t_nulllit [ANull] = true /\ arity_ok t_nulllit [ANum 1%Z] = true /\ no_null_lits t_nulllit = false /\
   dt_spec t_nulllit [ANull] = OMany [RAtom (ANum 7); RAtom (ANum 9)] /\ dt_impl t_nulllit [ANull] = onull /\
   dt_spec t_nulllit [ANum 1%Z] = OMany [RAtom (ANum 8); RAtom (ANum 9)] /\ dt_impl t_nulllit [ANum 1%Z] = OMany [RAtom (ANum 9)] /\
   dt_impl_nl t_nulllit [ANull] = dt_spec t_nulllit [ANull] /\ dt_impl_nl t_nulllit [ANum 1%Z] = dt_spec t_nulllit [ANum 1%Z].
@@ -716,6 +732,6 @@ Definition t_ex : table :=
                  {| r_in := [UPos [ILit (ANum 6)]; UAny]; r_out := [AStr 5; ANum 4] |}] |}.
 
 Theorem nonvacuous :
-  wf t_ex = true /\ typed t_ex [ANum 5%Z; AStr 2] = true /\ length (hits t_ex [ANum 5%Z; AStr 2]) = 3 /\
+  wf t_ex = true /\ in_scope t_ex [ANum 5%Z; AStr 2] = true /\ length (hits t_ex [ANum 5%Z; AStr 2]) = 3 /\
   dt_impl t_ex [ANum 5%Z; AStr 2] = OOne (RCtx [(0%N, AStr 5); (1%N, ANum 3)]).
 Proof. vm_compute. repeat split. Qed.
